@@ -35,7 +35,13 @@ FrameOK(e) ==
                 /\ e.rec.ip = c.ip.src
                 /\ (l4 = "tcp" => e.rec.port = c.l4.sport /\ (e.rec.flagsKnown => e.rec.flags = SelectSeq(WD!FlagLetters(c.l4.flags9), LAMBDA x : x # "")))
                 /\ (l4 = "icmp" => e.rec.ttl = c.ip.ttl /\ e.rec.type = c.l4.type /\ e.rec.code = c.l4.code))
-EventOK(e) == CASE e.ev = "Fill" -> FillOK(e) [] e.ev = "Reply" -> ReplyOK(e) [] e.ev = "Frame" -> FrameOK(e) [] OTHER -> FALSE
+\* a batch of frames through a scan method that reports asynchronously (built by the command's own constructor): the records, in order,
+\* are exactly those of the reply-shaped frames, in order
+ReplyBatchOK(e) == LET idx == SelectSeq([i \in 1..Len(e.frames) |-> i], LAMBDA i : WD!ReplyShape(e.cfg, e.frames[i])) IN
+   /\ \A i \in 1..Len(e.status) : e.status[i] = "ok"
+   /\ Len(e.recs) = Len(idx)
+   /\ \A k \in 1..Len(idx) : RecEq(e.cfg, e.recs[k], WD!RecordOf(e.cfg, e.frames[idx[k]]))
+EventOK(e) == CASE e.ev = "Fill" -> FillOK(e) [] e.ev = "Reply" -> ReplyOK(e) [] e.ev = "ReplyBatch" -> ReplyBatchOK(e) [] e.ev = "Frame" -> FrameOK(e) [] OTHER -> FALSE
 VARIABLE l
 Init == l = 1
 Next == l <= Len(Trace) /\ EventOK(Trace[l]) /\ l' = l + 1
